@@ -55,12 +55,17 @@ func optionalField(sf reflect.StructField) bool {
 // jsonFields lists (json name, field) of the fields encoding/json handles for struct type t,
 // for conflict-free types (the generator guarantees that outside known-finding cases).
 func jsonFields(t reflect.Type) map[string]reflect.StructField {
-	out := map[string]reflect.StructField{}
-	var walk func(t reflect.Type, depth int, depthOf map[string]int)
-	depthOf := map[string]int{}
-	walk = func(t reflect.Type, depth int, depthOf map[string]int) {
+	type cand struct {
+		sf     reflect.StructField
+		depth  int
+		tagged bool
+	}
+	cands := map[string][]cand{}
+	var walk func(t reflect.Type, depth int, prefix []int)
+	walk = func(t reflect.Type, depth int, prefix []int) {
 		for i := 0; i < t.NumField(); i++ {
 			sf := t.Field(i)
+			idx := append(append([]int{}, prefix...), i)
 			tag := sf.Tag.Get("json")
 			if tag == "-" {
 				continue
@@ -72,7 +77,7 @@ func jsonFields(t reflect.Type) map[string]reflect.StructField {
 					et = et.Elem()
 				}
 				if et.Kind() == reflect.Struct && !(sf.IsExported() && tgenValidTag(tn)) {
-					walk(et, depth+1, depthOf)
+					walk(et, depth+1, idx)
 					continue
 				}
 			}
@@ -80,17 +85,41 @@ func jsonFields(t reflect.Type) map[string]reflect.StructField {
 				continue
 			}
 			name := sf.Name
-			if tgenValidTag(tn) {
+			tagged := tgenValidTag(tn)
+			if tagged {
 				name = tn
 			}
-			if d, ok := depthOf[name]; ok && d <= depth {
-				continue
-			}
-			depthOf[name] = depth
-			out[name] = sf
+			sf.Index = idx
+			cands[name] = append(cands[name], cand{sf, depth, tagged})
 		}
 	}
-	walk(t, 0, depthOf)
+	walk(t, 0, nil)
+	// encoding/json's dominance rule: the shallowest candidate wins; among several at that
+	// depth exactly one tagged candidate wins; otherwise the name is dropped.
+	out := map[string]reflect.StructField{}
+	for name, cs := range cands {
+		min := cs[0].depth
+		for _, c := range cs {
+			if c.depth < min {
+				min = c.depth
+			}
+		}
+		var at, tagged []cand
+		for _, c := range cs {
+			if c.depth == min {
+				at = append(at, c)
+				if c.tagged {
+					tagged = append(tagged, c)
+				}
+			}
+		}
+		switch {
+		case len(at) == 1:
+			out[name] = at[0].sf
+		case len(tagged) == 1:
+			out[name] = tagged[0].sf
+		}
+	}
 	return out
 }
 
